@@ -379,6 +379,13 @@ func c20Delay(c *Check, P string) {
 		c.Report(ok, P+".O2", "DELAY-NOTHING-PUBLISHED-ON-ERROR", pub, pub.Pos(), "stamp error edge", "when a message has no delay (or the generator fails) nothing is published and the error is returned")
 	}
 	c.Floor(P+".O2", "test of the stamp helper's error", len(okE), 1)
+	// apart from the stamp, the publisher leaves the caller's messages as they are (whatever the wrapped publisher answers)
+	nwr := 0
+	for _, w := range MessageWrites(pub, func(v ssa.Value) bool { return v.Type().String() == tMessagePtr }) {
+		nwr++
+		c.Report(false, P+".O2", "DELAY-PUBLISHER-ONLY-STAMPS", pub, w.Pos(), "write to a message of the batch", "the delay publisher edits the caller's messages only through its stamp helper, before the inner Publish: a stamp taken away again (e.g. when the wrapped publisher failed) loses a delay the caller had set")
+	}
+	c.Report(true, P+".O2", "DELAY-PUBLISHER-WRITES-SCANNED", pub, pub.Pos(), "delay publisher Publish", fmt.Sprintf("%d direct writes to messages in Publish", nwr))
 
 	// the precedence chain in the helper
 	A := apply
